@@ -1,6 +1,8 @@
 (* C07 — property theorems only.  Each is closed by [exact] of a lemma of C07/Proofs.v. *)
 From Coq Require Import List String NArith Bool.
 From Verif Require Import Base.Util Writer.Model C07.Model C07.Proofs.
+(* the handler-level harness of this check (h_c07r) evaluates its cases with C07.RCheck *)
+From Verif Require C07.RCheck.
 Import ListNotations.
 Local Open Scope string_scope.
 Local Open Scope list_scope.
